@@ -22,8 +22,9 @@ def errclass(s):
     return 'other', 0
 
 
-def idkey(s):
-    m = re.fullmatch(r'(?:g:)?id-(\d+)', s or '')
+def idkey(s, ws=False):
+    # (episodes with cfg.wsids choose IDs with white space around them: only the exact string counts)
+    m = re.fullmatch(r'(?:g:)? id-(\d+)\t' if ws else r'(?:g:)?id-(\d+)', s or '')
     return int(m.group(1)) if m else 0
 
 
@@ -62,7 +63,7 @@ def header(prog, ncpu):
     h.update({'ev': 'reset', 'ep': prog['id'], 'mode': 'free' if prog['sched']['kind'] == 'free' else 'gated',
               'wk': cfg.get('wk', 'plain'), 'hconc': cfg.get('conc', 1), 'ncpu': ncpu, 'queues': queues, 'jobs': jobs, 'batches': batches,
               'clients': [c['name'] for c in prog['clients']], 'expiry': cfg.get('expiry_us', 0), 'ratio': cfg.get('ratio', 0),
-              'ctx': bool(cfg.get('ctx')), 'strategy': cfg.get('strategy') or 'rr', 'idgen': bool(cfg.get('idgen')),
+              'ctx': bool(cfg.get('ctx')), 'strategy': cfg.get('strategy') or 'rr', 'idgen': bool(cfg.get('idgen')), 'wsids': bool(cfg.get('wsids')),
               'nobind': bool(cfg.get('nobind')), 'family': prog.get('family', ''), 'consumers': cfg.get('consumers') or 1, 'preload': pre})
     # the handles of the other consumers of a shared queue are the same queue
     if (cfg.get('consumers') or 1) > 1:
@@ -130,7 +131,7 @@ def normalise(ep, ncpu):
                 its = []
                 for it in e.get('items') or []:
                     c, k = errclass(it.get('err', ''))
-                    its.append({'k': idkey(it.get('id', '')), 'v': it.get('v', 0), 'ecls': c, 'ekey': k})
+                    its.append({'k': idkey(it.get('id', ''), bool(prog['cfg'].get('wsids'))), 'v': it.get('v', 0), 'ecls': c, 'ekey': k})
                 d['items'] = its
             out.append(d)
         elif ev == 'wf.enter':
